@@ -185,6 +185,34 @@ func init() {
 			}
 			o.Nontrivial(line)
 		}
+		// the bundled wirings: quiescence leaves report mates beyond the depth, also for the side being mated
+		kinds := []string{"turochamp", "turochamp", "sargon", "bernstein", "plain"}
+		for i := 0; i < k; i++ {
+			start, moves, b := randomLine(r, 8)
+			if i%2 == 0 { // sparse mating positions, either side to move
+				start = mateStarts[r.Intn(len(mateStarts))]
+				_, moves, b = randomLineFrom(r, start, r.Intn(3))
+			}
+			kind := kinds[r.Intn(len(kinds))]
+			limit := 1 + r.Intn(2)
+			if pieceCount(b) <= 5 {
+				limit = 2 + r.Intn(2)
+			}
+			line := fmt.Sprintf("published iterx %s %d %s ; %s", kind, limit, start, strings.Join(moves, " "))
+			o.do(line)
+			o.Count("iterx:" + kind)
+			o.Nontrivial(line)
+		}
+		for i := 0; i < k/8+2; i++ {
+			start, moves, _ := randomLine(r, 6)
+			if i%2 == 0 {
+				start, moves = fen.Initial, []string{"m:e2e4", "m:e7e5", "m:g1f3", "m:b8c6", "m:f1c4", "m:f8c5"}[:2*r.Intn(4)]
+			}
+			line := fmt.Sprintf("published iterseq plain %d %d %s ; %s", []int{0, 0, 3}[i%3], 1+r.Intn(2), start, strings.Join(moves, " "))
+			o.do(line)
+			o.Count("iterseq")
+			o.Nontrivial(line)
+		}
 		for i := 0; i < k/2; i++ {
 			start := corpus[r.Intn(len(corpus))]
 			gateN := 1 + r.Intn(40)
@@ -195,6 +223,178 @@ func init() {
 			o.do(line)
 			o.Count("iterhalt")
 			o.Nontrivial(line)
+		}
+	})
+}
+
+// wiredEngine builds an engine around ONE search object of the given kind (as the binaries do), noise off, no hash table.
+func wiredEngine(kind string, depth uint) (*engine.Engine, search.Search) {
+	s := histEngines()[kind](&gate{})
+	return engine.New(context.Background(), kind, "x", s, engine.WithOptions(engine.Options{Depth: depth})), s
+}
+
+// mateWithin reads the raw score fields (not Score.MateDistance): a forced mate, for either side, within d plies.
+func mateWithin(sc eval.Score, d int) bool {
+	if sc.Type == eval.Inf || sc.Type == eval.NegInf {
+		return true // the game is already decided: a mate in zero plies
+	}
+	if sc.Type != eval.MateInX {
+		return false
+	}
+	m := int(sc.Mate)
+	if m < 0 {
+		m = -m
+	}
+	return m <= d
+}
+
+func init() {
+	registerEval("iterx", func(a []string) string {
+		// iterx <kind> <limit> <fen6> ; moves: iterative deepening on the bundled engine wirings (quiescence leaves can report
+		// mates beyond the depth, for either side): depths 1,2,... each equal to a direct fixed-depth search; the analysis ends at
+		// the limit or at the first depth d whose score is a forced mate within d plies - no earlier, no later.
+		kind := a[0]
+		limit, _ := strconv.Atoi(a[1])
+		i := 2
+		for i < len(a) && a[i] != ";" {
+			i++
+		}
+		start := strings.Join(a[2:i], " ")
+		var moves []string
+		if i < len(a) {
+			moves = a[i+1:]
+		}
+		ctx := context.Background()
+		e, _ := wiredEngine(kind, 0)
+		if err := e.Reset(ctx, start); err != nil {
+			return "err"
+		}
+		for _, m := range moves {
+			if m != "" && e.Move(ctx, strings.TrimPrefix(m, "m:")) != nil {
+				return "err-move"
+			}
+		}
+		out, err := e.Analyze(ctx, searchctl.Options{DepthLimit: lang.Some(uint(limit))})
+		if err != nil {
+			return "err-analyze"
+		}
+		var pvs []search.PV
+		done := make(chan struct{})
+		go func() {
+			for pv := range out {
+				pvs = append(pvs, pv)
+			}
+			close(done)
+		}()
+		select {
+		case <-done:
+		case <-time.After(60 * time.Second):
+			e.Halt(ctx)
+			return "MISMATCH analysis with a depth limit did not end"
+		}
+		e.Halt(ctx)
+		if len(pvs) == 0 {
+			return "MISMATCH no iteration reported"
+		}
+		for k, pv := range pvs {
+			// the report channel keeps only the latest unread report: gaps are possible, going back is not
+			if (k == 0 && pv.Depth < 1) || (k > 0 && pv.Depth <= pvs[k-1].Depth) {
+				return fmt.Sprintf("MISMATCH depths out of order at report %d: depth %d", k, pv.Depth)
+			}
+			ref := searchOnce(kind, 0, start, moves, pv.Depth)
+			got := fmt.Sprintf("%d %s %s", pv.Nodes, fmtScore(pv.Score), pvStr(pv.Moves))
+			if got != ref {
+				return fmt.Sprintf("MISMATCH depth %d: analysis=%s direct=%s", pv.Depth, strings.ReplaceAll(got, " ", "_"), strings.ReplaceAll(ref, " ", "_"))
+			}
+			last := k == len(pvs)-1
+			stop := pv.Depth == limit || mateWithin(pv.Score, pv.Depth)
+			if stop && !last {
+				return fmt.Sprintf("MISMATCH went on after depth %d (limit %d, score %s)", pv.Depth, limit, fmtScore(pv.Score))
+			}
+			if !stop && last {
+				return fmt.Sprintf("MISMATCH ended at depth %d below the limit %d without a forced mate within the depth (score %s)", pv.Depth, limit, fmtScore(pv.Score))
+			}
+		}
+		return "ok"
+	})
+	registerEval("iterseq", func(a []string) string {
+		// iterseq <kind> <default> <first> <fen6> ; moves: two analyses on ONE engine: the first with an explicit depth, the second
+		// without. The limit of the first must not outlive it: the second runs to the configured default, or, without a default,
+		// until it is halted.
+		kind := a[0]
+		def, _ := strconv.Atoi(a[1])
+		first, _ := strconv.Atoi(a[2])
+		i := 3
+		for i < len(a) && a[i] != ";" {
+			i++
+		}
+		start := strings.Join(a[3:i], " ")
+		var moves []string
+		if i < len(a) {
+			moves = a[i+1:]
+		}
+		ctx := context.Background()
+		e, _ := wiredEngine(kind, uint(def))
+		setup := func() bool {
+			if e.Reset(ctx, start) != nil {
+				return false
+			}
+			for _, m := range moves {
+				if m != "" && e.Move(ctx, strings.TrimPrefix(m, "m:")) != nil {
+					return false
+				}
+			}
+			return true
+		}
+		if !setup() {
+			return "err"
+		}
+		out, err := e.Analyze(ctx, searchctl.Options{DepthLimit: lang.Some(uint(first))})
+		if err != nil {
+			return "err-analyze"
+		}
+		for range out {
+		}
+		e.Halt(ctx)
+		if !setup() {
+			return "err"
+		}
+		out, err = e.Analyze(ctx, searchctl.Options{})
+		if err != nil {
+			return "err-analyze"
+		}
+		want := def
+		if def == 0 {
+			want = first + 2 // no limit at all: it must still be running two depths beyond the first analysis' limit
+		}
+		var lastPV search.PV
+		timeout := time.After(60 * time.Second)
+		for {
+			select {
+			case pv, ok := <-out:
+				if !ok {
+					e.Halt(ctx)
+					if mateWithin(lastPV.Score, lastPV.Depth) {
+						return "ok"
+					}
+					if def > 0 && lastPV.Depth == def {
+						return "ok"
+					}
+					return fmt.Sprintf("MISMATCH second analysis ended by itself at depth %d (default %d, first analysis had depth %d)", lastPV.Depth, def, first)
+				}
+				lastPV = pv
+				if def == 0 && pv.Depth >= want {
+					e.Halt(ctx)
+					return "ok"
+				}
+				if def > 0 && pv.Depth > def {
+					e.Halt(ctx)
+					return fmt.Sprintf("MISMATCH went beyond the configured default %d", def)
+				}
+			case <-timeout:
+				e.Halt(ctx)
+				return "ok" // too slow to tell
+			}
 		}
 	})
 }
@@ -943,7 +1143,7 @@ func init() {
 		// a search superseding one that is still unwinding (or entering its next iteration) returns what it returns alone
 		sn := 150
 		if thorough {
-			sn = 4000
+			sn = 2500
 		}
 		for _, sc := range []string{"sargon %d 2 e2e4 e7e5", "sargon %d 2 d2d4 g8f6", "turochamp %d 1 e2e4 e7e5", "bernstein %d 2 e2e4 e7e5", "plain %d 3 e2e4 d7d5"} {
 			k := sn
